@@ -15,6 +15,8 @@ and of the Unix `std::path` functions it calls).  Paths are byte lists (`47 = '/
   wrap-around anywhere, for all `u64` inputs.
 * T4 (`c21_file_read_exact`, `c21_file_read_complete`): the file loader returns exactly
   `file[offset .. offset+length]` or an error.
+* End to end (`c21_load_end_to_end`): parsing + allow-list + lookup + range check of any of
+  the three loaders only ever yields `file[offset .. offset+length]` of an allowed name.
 -/
 namespace RtenVerif.ExtData
 
@@ -76,21 +78,73 @@ example : allowed [109, 46, 100, 97, 116, 97, 47, 46, 47] = true := by decide  -
 example : components (push [47, 120] [109, 46, 100, 97, 116, 97]) =
     [Comp.root, Comp.normal [120], Comp.normal [109, 46, 100, 97, 116, 97]] := by decide
 
-/-- Segments after the first contribute nothing when `body` is a single component. -/
-theorem body_tail_empty {p name : List Nat} (hb : body p = [Comp.normal name]) (hn : classify name = some (Comp.normal name))
-    (hp : ∃ tail, splitSlash p = name :: tail) :
-    ∀ seg ∈ (splitSlash p).tail, classify seg = none := by
-  obtain ⟨tail, ht⟩ := hp
-  unfold body at hb
-  rw [ht] at hb ⊢
-  simp only [List.filterMap_cons, hn, List.cons.injEq, true_and, List.tail_cons] at hb ⊢
-  intro seg hs
-  cases hcl : classify seg with
-  | none => rfl
-  | some c =>
-    have : c ∈ tail.filterMap classify := List.mem_filterMap.mpr ⟨seg, hs, hcl⟩
-    rw [hb] at this
-    cases this
+/-- **C21.T1 (string level)** An accepted location is literally `name ++ tail` where `name`
+is the file name of T1 and `tail` is empty or starts with `/` and consists only of empty
+and `.` segments (`/`, `/.`, `//./` …): nothing but the name reaches the directory walk. -/
+theorem c21_allowed_shape (p : List Nat) (h : allowed p = true) :
+    ∃ name tail, p = name ++ tail ∧ components p = [Comp.normal name] ∧ 47 ∉ name ∧
+      (tail = [] ∨ tail.head? = some 47) ∧ body tail = [] := by
+  obtain ⟨name, hc, _⟩ := (c21_allowed_iff p).mp h
+  obtain ⟨hb, hhead⟩ := components_eq_body_of_head_normal hc
+  have hbody : body p = [Comp.normal name] := by rw [← hb, hc]
+  obtain ⟨seg, hns, hsplit⟩ := splitSlash_head p
+  -- the first segment is a normal component
+  have hcls : classify seg = some (Comp.normal name) ∧
+      ((p = seg ∧ splitSlash p = [seg]) ∨ ∃ p', p = seg ++ 47 :: p' ∧ splitSlash p = seg :: splitSlash p' ∧ body p' = []) := by
+    have hsp : ∃ rest, splitSlash p = seg :: rest := by
+      rcases hsplit with ⟨_, h2⟩ | ⟨p', _, h2⟩
+      · exact ⟨[], h2⟩
+      · exact ⟨_, h2⟩
+    obtain ⟨rest, hrest⟩ := hsp
+    have hb2 := hbody
+    unfold body at hb2
+    rw [hrest, List.filterMap_cons] at hb2
+    cases hcl : classify seg with
+    | none =>
+      exfalso
+      -- seg = [] or seg = [46]
+      unfold classify at hcl
+      split at hcl
+      · rename_i he
+        subst he
+        rcases hsplit with ⟨h1, _⟩ | ⟨p', h1, _⟩
+        · subst h1; simp [components] at hc
+        · rw [h1] at hhead; simp at hhead
+      · split at hcl
+        · rename_i he
+          subst he
+          rcases hsplit with ⟨h1, _⟩ | ⟨p', h1, _⟩
+          · subst h1; simp [components] at hc
+          · rw [h1] at hc; simp [components] at hc
+        · split at hcl <;> cases hcl
+    | some c =>
+      rw [hcl] at hb2
+      simp only at hb2
+      injection hb2 with hb3 hb4
+      subst hb3
+      refine ⟨rfl, ?_⟩
+      rcases hsplit with h | ⟨p', h1, h2⟩
+      · exact Or.inl h
+      · right
+        refine ⟨p', h1, h2, ?_⟩
+        rw [hrest] at h2
+        injection h2 with _ h2
+        unfold body
+        rw [← h2]; exact hb4
+  obtain ⟨hcl, hshape⟩ := hcls
+  have hname : seg = name := by
+    unfold classify at hcl
+    split at hcl
+    · cases hcl
+    · split at hcl
+      · cases hcl
+      · split at hcl
+        · cases hcl
+        · injection hcl with hcl; injection hcl
+  subst hname
+  rcases hshape with ⟨h1, _⟩ | ⟨p', h1, _, h3⟩
+  · exact ⟨seg, [], by simp [h1], hc, hns, Or.inl rfl, body_nil⟩
+  · exact ⟨seg, 47 :: p', h1, hc, hns, Or.inr rfl, by rw [body_slash_cons]; exact h3⟩
 
 /-! ## T2 — everything else is rejected -/
 
@@ -355,6 +409,38 @@ theorem c21_file_read_exact' (file : List Nat) (off len : Nat) (bytes : List Nat
     bytes.length = len ∧ off + len ≤ file.length ∧ bytes = (file.drop off).take len :=
   c21_file_read_exact TMP_SIZE (by decide) file off len bytes h
 
+/-- Whatever short reads the OS produces, `read_fill` delivers `min k avail` bytes — the
+atomic `readFill` of the model (`(readFill file pos k).length = min k (file.length - pos)`). -/
+theorem c21_read_fill_short_reads (avail k : Nat) (hint : Nat → Nat) :
+    ∀ fuel total, k - total < fuel → total ≤ min k avail →
+      readFillCount avail k hint fuel total = min k avail := by
+  intro fuel
+  induction fuel with
+  | zero => intro total h; omega
+  | succ fuel ih =>
+    intro total hf ht
+    unfold readFillCount
+    simp only
+    obtain ⟨hb, hp⟩ := osRead_bounds (avail - total) (k - total) (hint total)
+    by_cases hstop : osRead (avail - total) (k - total) (hint total) = 0 ∨
+        total + osRead (avail - total) (k - total) (hint total) = k
+    · simp only [hstop, if_true]
+      rcases hstop with h0 | hk
+      · rw [h0]
+        have : ¬ 0 < min (k - total) (avail - total) := by
+          intro hpos; have := hp hpos; omega
+        omega
+      · omega
+    · simp only [hstop, if_false]
+      have hn0 : osRead (avail - total) (k - total) (hint total) ≠ 0 := fun h => hstop (Or.inl h)
+      apply ih
+      · omega
+      · omega
+
+
+example : readFillCount 10 4 (fun _ => 1) 5 0 = 4 := by decide   -- four 1-byte reads
+example : readFillCount 3 8 (fun t => t) 9 0 = 3 := by decide    -- EOF after 3 bytes
+
 /-- Completeness of the file loader on real files (length ≤ `i64::MAX`). -/
 theorem c21_file_read_complete (C : Nat) (hC : 0 < C) (file : List Nat) (off len : Nat)
     (hf : file.length ≤ I64_MAX) (h : off + len ≤ file.length) :
@@ -450,5 +536,81 @@ theorem c21_parse_u64_bound (s : List Nat) (n : Nat) (h : parseU64 s = some n) :
       · cases h
       · exact parseDigits_le _ 0 n (by decide) h
     · exact parseDigits_le _ 0 n (by decide) h
+
+/-! ## End to end -/
+
+/-- **C21 (end to end)** Whatever loader is used, if the external-data path hands bytes to
+a tensor then: the location passed the allow-list (hence T1: it is a plain data file name
+directly in the model directory), offset and length were well-formed `u64` numbers, the
+environment really has an entry for that location, the range lies inside that entry with
+no wrap-around, and the bytes are exactly `file[offset .. offset+length]`. -/
+theorem c21_load_end_to_end (ld : Loader) (lookup : List Nat → Option (List Nat))
+    (hfiles : ∀ l f, lookup l = some f → f.length < U64_MAX)
+    (loc offS lenS bytes : List Nat) (h : loadExternal ld lookup loc offS lenS = .ok bytes) :
+    allowed loc = true ∧ ∃ off len file, parseU64 offS = some off ∧ parseU64 lenS = some len ∧
+      off ≤ U64_MAX ∧ len ≤ U64_MAX ∧
+      lookup loc = some file ∧ off + len ≤ file.length ∧ bytes = (file.drop off).take len ∧
+      bytes.length = len := by
+  unfold loadExternal at h
+  split at h
+  · cases h
+  · rename_i off hoff
+    split at h
+    · cases h
+    · rename_i len hlen
+      split at h
+      · cases h
+      · split at h
+        · cases h
+        · rename_i hallow
+          have hal : allowed loc = true := by
+            cases ha : allowed loc with
+            | true => rfl
+            | false => simp [ha] at hallow
+          refine ⟨hal, off, len, ?_⟩
+          split at h
+          · cases h
+          · rename_i file hfile
+            have hfl := hfiles loc file hfile
+            refine ⟨file, hoff, hlen, c21_parse_u64_bound _ _ hoff, c21_parse_u64_bound _ _ hlen, hfile, ?_⟩
+            split at h
+            · -- file loader
+              split at h
+              · rename_i bs hr
+                injection h with h; subst h
+                obtain ⟨h1, h2, h3⟩ := c21_file_read_exact' file off len _ hr
+                exact ⟨h2, h3, h1⟩
+              · cases h
+            · -- mmap loader
+              split at h
+              · cases h
+              · rename_i r hr
+                obtain ⟨s, e⟩ := r
+                obtain ⟨hs, he, hle⟩ := c21_mmap_range_sound off len file.length s e hfl hr
+                obtain ⟨hsl, hl⟩ := c21_slice_exact file off len hle
+                rw [hs, he, hsl] at h
+                simp only at h
+                injection h with h; subst h
+                exact ⟨hle, rfl, hl⟩
+            · -- in-memory loader
+              split at h
+              · cases h
+              · rename_i r hr
+                obtain ⟨s, e⟩ := r
+                obtain ⟨hs, he, hle⟩ := c21_mem_range_sound off len file.length s e hfl hr
+                obtain ⟨hsl, hl⟩ := c21_slice_exact file off len hle
+                rw [hs, he, hsl] at h
+                simp only at h
+                injection h with h; subst h
+                exact ⟨hle, rfl, hl⟩
+
+/-- Non-vacuity: `"w.data"`, offset `"1"`, length `"2"` on a 4-byte file, all loaders. -/
+example : ∀ ld, loadExternal ld (fun l => if l = [119, 46, 100, 97, 116, 97] then some [9, 8, 7, 6] else none)
+    [119, 46, 100, 97, 116, 97] [49] [50] = .ok [8, 7] := by
+  intro ld; cases ld <;> decide
+/-- `"../w.data"` is refused by every loader even though the environment would serve it. -/
+example : ∀ ld, loadExternal ld (fun _ => some [9, 8, 7, 6])
+    [46, 46, 47, 119, 46, 100, 97, 116, 97] [49] [50] = .error (.load .disallowed) := by
+  intro ld; cases ld <;> decide
 
 end RtenVerif.ExtData
